@@ -34,6 +34,7 @@ def gen(rng, i):
 def run(ck):
     quick = ck.tier == "quick"
     rng = random.Random(ck.seed)
+    ck.allow_truncation = True   # blocking / spinning paths may exhaust the step budget under unfair schedules
     ck.mc("CancelOnShutdown", "CancelOnShutdown.mc.cfg", timeout=3000)
     ck.mc("WorkerLoop", "WorkerLoop.mc.cfg", timeout=3000)
     tasks = []
